@@ -373,6 +373,9 @@ func churnScenarios() []hx.Scenario {
 	for _, sc := range shapeScripts(5) {
 		for _, wait := range []bool{true, false} {
 			mk(sc, wait, len(sc) > 4)
+			if len(sc) == 4 {
+				out[len(out)-1].QuickMin = hx.Ptr(1) // quick tier: bound 1 mandatory, 2+ as the budget allows
+			}
 		}
 	}
 	// a subscriber that leaves with values still buffered for it, then newcomers
